@@ -34,6 +34,14 @@ pub fn resolve_res(
                 bigint.checked_into::<u32>(
                     report,
                     ast_res.expr.span())?,
+
+            // On the final iteration, a failed constraint
+            // can't be treated as a guess anymore
+            expr::Value::FailedConstraint(msg) if ctx.is_last_iteration =>
+            {
+                report.message(msg);
+                return Err(());
+            }
                 
             _ => 0,
         }
